@@ -38,3 +38,29 @@ check('C02', TV,
       'declared objective is decided (stretch obligations may be undecided). Family sets are bounded/non-empty.',
       'SMT exists-forall LRA projection per block + exact LRA optimisation (z3 Optimize) + QF_NRA optimum sandwich',
       'DESIGN.md section 4 C02')
+
+check('C06', TV,
+      'For deterministic models (every polynomial-representable atom x syntactic form: constraint, scaled, negated, '
+      'objective, affine right-hand side, written from the right; maxof/minof; rsocone; integer variables) z3 decides '
+      'that the real compiled program implies each user constraint and the objective epigraph at EVERY compiled-feasible '
+      'point, with atoms given by their mathematical definition. Tower atoms (power, p-norm, geometric mean) are '
+      'verified compositionally: IPCone.to_soc() is abstracted to its power-cone meaning in the compiled program '
+      '(wiring lemma, QF_NRA) and that meaning is established for the real to_soc() output of every recorded weight '
+      'vector (log-linear QF_LRA + boundary QF_NRA). Layer B: the real solve() point satisfies the user constraints '
+      'and get() equals the directly evaluated objective.',
+      'Trusted: oracle definitions of atoms; harness stub of IPCone.to_soc (listed; justified by the tower theorem '
+      'obligations run in the same check); monotonicity of log. exp-cone atoms, LMI/logdet/rootdet are outside.',
+      'SMT translation validation (QF_LRA/QF_NRA inclusion, block-sliced) + compositional power-cone abstraction',
+      'DESIGN.md section 4 C06')
+
+check('C07', TV,
+      'Exactness of atom encodings: per block of the real compiled program the exists-forall query "a user-feasible '
+      'point with no completion of the block\'s auxiliary columns" is unsat (LRA core; NRA blocks are stretch); the '
+      'tower theorem is discharged in both directions for every integer weight vector up to the bound (exists-forall '
+      'LRA in logarithms, all binary-expansion branches of split()); exact optimum of P == exact optimum of the user '
+      'model (z3 Optimize) == solve(); cone programs: no user-feasible point beats the reported optimum by delta; '
+      'small MILPs: exact LIRA optimum == value of the real MILP path.',
+      'Trusted as C06 plus closedness of the power cone / tower (boundary covered by samples). NRA projection '
+      'obligations may be undecided (reported). Tolerance-regime atoms (quad, scaled squares): optimum sandwich only.',
+      'SMT exists-forall LRA/NRA projection + log-linear tower theorem + exact LRA/LIRA optimisation',
+      'DESIGN.md section 4 C07')
